@@ -31,6 +31,8 @@ def _sig(msg):
         return "route:lost-or-wrong-step"
     if "non-existing agent" in msg:
         return "route:wrong-agent"
+    if "never reused" in msg:
+        return "ids:reused"
     return "other"
 
 
